@@ -27,7 +27,9 @@ S3 = math.sqrt(1. / 3)
 
 # ---------------------------------------------------------------- geometry of the three base meshes
 
-NODES = {'X': [[0., 1., 3.]], 'Y': [[0., .5, 1.5, 2.]], 'Z': [[0., 1., 3.], [0., 2.]]}
+# mesh.line(2)@X, mesh.line(3)@Y, mesh.rectilinear([2,1])@Z: unit elements (integer arguments keep the geometry
+# function, and with it the compile time per state, small; J is 1 everywhere)
+NODES = {'X': [[0., 1., 2.]], 'Y': [[0., 1., 2., 3.]], 'Z': [[0., 1., 2.], [0., 1.]]}
 NDIMS = {k: len(v) for k, v in NODES.items()}
 SHAPE = {k: tuple(len(n) - 1 for n in v) for k, v in NODES.items()}
 NELEMS = {k: int(numpy.prod(SHAPE[k])) for k in NODES}
@@ -197,9 +199,9 @@ def topo(kind, name):
     from nutils import mesh
     if (kind, name) not in _topo_cache:
         if NDIMS[kind] == 1:
-            _topo_cache[kind, name] = mesh.line(NODES[kind][0], space=name)
+            _topo_cache[kind, name] = mesh.line(SHAPE[kind][0], space=name)
         else:
-            _topo_cache[kind, name] = mesh.rectilinear(NODES[kind], space=name)
+            _topo_cache[kind, name] = mesh.rectilinear(list(SHAPE[kind]), space=name)
     return _topo_cache[kind, name]
 
 
@@ -299,7 +301,7 @@ class Mismatch(Exception):
 TRIMS = {
     # name: kind, level c (domain keeps coordinate >= c), maxrefine, expected [(base element, [(lo, hi) local intervals])]
     'Xtrim': ('X', .5, 0, [(0, [(.5, 1.)]), (1, [(0., 1.)])]),
-    'Ytrim': ('Y', .75, 1, [(1, [(.25, .5), (.5, 1.)]), (2, [(0., 1.)])]),
+    'Ytrim': ('Y', 1.25, 1, [(1, [(.25, .5), (.5, 1.)]), (2, [(0., 1.)])]),
 }
 
 
@@ -428,19 +430,22 @@ def close(a, b):
 
 
 def root_cause(e):
-    'innermost nutils frame of an exception: Class.method (file-independent)'
+    'Class.method of the innermost nutils/sample.py frame of an exception (innermost nutils frame if there is none)'
     tb = e.__traceback__
-    last = None
+    last = lastsample = None
     while tb is not None:
         f = tb.tb_frame
-        if 'nutils' in f.f_code.co_filename:
+        fn = f.f_code.co_filename
+        if 'nutils' in fn:
             slf = f.f_locals.get('self')
-            last = (type(slf).__name__ + '.' if slf is not None else '') + f.f_code.co_name
+            last = type(slf).__name__ + '.' + f.f_code.co_name if slf is not None else f.f_code.co_qualname.replace('.<locals>', '').replace('.<genexpr>', '').replace('.<listcomp>', '')
+            if fn.endswith('sample.py'):
+                lastsample = last
         tb = tb.tb_next
-    return last or '?'
+    return lastsample or last or '?'
 
 
-def conform(smp, mod, deep=True):
+def conform(smp, mod, deep=True, integral=True, memo=None):
     '''the oracle: None, or (kind, description) of the first disagreement between the live sample
     and the model.  Exceptions raised by nutils are disagreements (the property promises a value).'''
     try:
@@ -462,8 +467,11 @@ def conform(smp, mod, deep=True):
             return 'getindex', 'the indices {} are not a permutation of range(npoints)'.format(allidx)
         if not deep:
             return None
+        memo = {} if memo is None else memo   # observations of the live sample, reusable for another candidate model on the same spaces
         F = F_nutils(mod.spaces)
-        vals = numpy.asarray(smp.eval(F))
+        if 'vals' not in memo:
+            memo['vals'] = numpy.asarray(smp.eval(F))
+        vals = memo['vals']
         if vals.shape != (mod.npoints, 3):
             return 'eval-shape', 'eval(F).shape = {} != {}'.format(vals.shape, (mod.npoints, 3))
         for i, e in enumerate(mod.elems):
@@ -472,10 +480,14 @@ def conform(smp, mod, deep=True):
                 if not close(vals[idx], want):
                     return 'eval', 'eval(F)[getindex({})[{}]={}] = {} but F at that point (locs {}) = {}'.format(i, k, idx, vals[idx].tolist(), locs, want.tolist())
         want = mod.integral()
-        got = numpy.asarray(smp.integrate(F))
+        if 'integrate' not in memo:
+            memo['integrate'] = numpy.asarray(smp.integrate(F))
+        got = memo['integrate']
         if not close(got, want):
             return 'integrate', 'integrate(F) = {} != sum w F = {}'.format(got.tolist(), want.tolist())
-        got2 = numpy.asarray(smp.integral(F).eval())
+        if integral and 'integral' not in memo:
+            memo['integral'] = numpy.asarray(smp.integral(F).eval())
+        got2 = memo['integral'] if integral else got
         if not close(got2, want):
             return 'integral', 'integral(F).eval() = {} != sum w F = {}'.format(got2.tolist(), want.tolist())
     except NotImplementedError as e:
